@@ -2,6 +2,8 @@ package main
 
 import (
 	"fmt"
+	"reflect"
+	"runtime"
 	"sort"
 	"strconv"
 	"strings"
@@ -107,7 +109,31 @@ func init() {
 		var sentinel *capRoute
 		barriers := int64(0) // barriers since the last collectRoutes
 		var now int64 = 100000
-		nowFn := func() time.Time { return time.Unix(atomic.LoadInt64(&now), 0) }
+		// parking: while `parked` is set, a now() call made from AddOrCreate (the aggregator's own goroutine) blocks until
+		// `unpark`, so that later points queue up in the aggregator's input channel (C04: buffers must not alias the caller's)
+		var parked int32
+		var gateMu sync.Mutex
+		gate := make(chan struct{})
+		getGate := func() chan struct{} { gateMu.Lock(); defer gateMu.Unlock(); return gate }
+		nowFn := func() time.Time {
+			g := getGate() // taken before the flag is read: `unpark` clears the flag first and then closes this very channel
+			if atomic.LoadInt32(&parked) == 1 {
+				pcs := make([]uintptr, 6)
+				n := runtime.Callers(2, pcs)
+				frames := runtime.CallersFrames(pcs[:n])
+				for {
+					fr, more := frames.Next()
+					if strings.HasSuffix(fr.Function, "AddOrCreate") {
+						<-g
+						break
+					}
+					if !more {
+						break
+					}
+				}
+			}
+			return time.Unix(atomic.LoadInt64(&now), 0)
+		}
 		cIn := stats.Counter("unit=Metric.direction=in")
 		cInv := stats.Counter("unit=Err.type=invalid")
 		cOoo := stats.Counter("unit=Err.type=out_of_order")
@@ -197,6 +223,12 @@ func init() {
 			}
 			var ems []em
 			for i, a := range aggs {
+				// everything handed to the aggregator has been taken out of its input queue (then Snapshot is a barrier:
+				// it is served by the same goroutine after the message being processed)
+				inq := reflect.ValueOf(a.a).Elem().FieldByName("in")
+				for k := 0; k < 1000000 && inq.Len() > 0; k++ {
+					time.Sleep(5 * time.Microsecond)
+				}
 				a.a.Snapshot()
 				a.tick <- time.Unix(5000000000, 0)
 				a.a.Snapshot()
@@ -280,7 +312,7 @@ func init() {
 					wait, _ := strconv.Atoi(s[4])
 					a.out = make(chan []byte, 100000)
 					a.tick = make(chan time.Time)
-					a.a, err = aggregator.NewMocked(s[0], m, string(unhexArg(s[2])), s[6] == "1", uint(interval), uint(wait), s[5] == "1", a.out, 0, nowFn, a.tick)
+					a.a, err = aggregator.NewMocked(s[0], m, string(unhexArg(s[2])), s[6] == "1", uint(interval), uint(wait), s[5] == "1", a.out, 1000, nowFn, a.tick)
 					if err != nil {
 						emit("builderr agg")
 						return
@@ -352,7 +384,7 @@ func init() {
 				sentEff = eff
 				barriers = 0
 				emit("built")
-			case "in", "inm", "aggin":
+			case "in", "inm", "inx", "inmx", "aggin":
 				line := unhexArg(f[1])
 				i0, v0, o0, b0, u0 := cIn.Count(), cInv.Count(), cOoo.Count(), cBl.Count(), cUnr.Count()
 				buf := append([]byte(nil), line...)
@@ -361,16 +393,26 @@ func init() {
 				} else {
 					tab.DispatchAggregate(buf)
 				}
-				if f[0] == "inm" {
+				if f[0] == "inm" || f[0] == "inmx" {
 					for i := range buf {
 						buf[i] = '#'
 					}
 				}
 				emit("res in=%d inv=%d ooo=%d bl=%d unr=%d", cIn.Count()-i0, cInv.Count()-v0, cOoo.Count()-o0, cBl.Count()-b0, cUnr.Count()-u0)
 				collectRoutes("d")
-				if f[0] != "aggin" {
+				if f[0] == "in" || f[0] == "inm" {
 					pump()
 				}
+			case "park":
+				atomic.StoreInt32(&parked, 1)
+			case "unpark":
+				atomic.StoreInt32(&parked, 0)
+				gateMu.Lock()
+				close(gate)
+				gate = make(chan struct{})
+				gateMu.Unlock()
+			case "pump":
+				pump()
 			case "bad":
 				for i := 0; i < 100000 && len(tab.Bad().In) > 0; i++ {
 					time.Sleep(10 * time.Microsecond)
